@@ -198,7 +198,7 @@ def gen_sig_scenario(rng, params, sid, quick=True):
     compress = rng.choice([False, False, 3, ["gzip", 1]])
     sc = {"id": sid, "type": "sig", "params": params, "ignore": ignore, "compress": compress,
           "versions": {"0": {"tag": "v0", "path": "verifmod.py", "pad": rng.choice([0, 0, 2]),
-                             "kind": rng.choice(["def", "def", "def", "nested", "lambda"])}}}
+                             "kind": rng.choice(["def", "def", "method", "method", "nested", "lambda"])}}}
     events = [["define", 0], ["wrap", 0]]
     bindings = []
     n_refs = 0
@@ -212,7 +212,28 @@ def gen_sig_scenario(rng, params, sid, quick=True):
             # near miss: one non-ignored value changed
             b = dict(rng.choice(bindings))
             cand = [k for k in b if k not in ("*", "**") and k not in ignore]
-            if cand:
+            r2 = rng.random()
+            if "*" in b and r2 < 0.4:
+                # same named arguments, other surplus positionals (one more, one fewer, one changed)
+                ex = list(b["*"])
+                op = rng.choice(["add", "drop", "change"]) if ex else "add"
+                if op == "add":
+                    ex.append(gen_value(rng))
+                elif op == "drop":
+                    ex.pop()
+                else:
+                    ex[rng.randrange(len(ex))] = gen_value(rng)
+                b["*"] = ex
+            elif "**" in b and r2 < 0.6:
+                ex = [list(x) for x in b["**"]]
+                if ex and rng.random() < 0.5:
+                    ex[rng.randrange(len(ex))][1] = gen_value(rng)
+                else:
+                    free = [n for n in ("x", "y", "z") if n not in [e[0] for e in ex]]
+                    if free:
+                        ex.append([rng.choice(free), gen_value(rng)])
+                b["**"] = ex
+            elif cand:
                 k = rng.choice(cand)
                 b[k] = gen_value(rng)
             cs, b = gen_call(rng, params, base=b)
@@ -249,10 +270,87 @@ def gen_sig_scenario(rng, params, sid, quick=True):
     return sc
 
 
+def gen_partial_scenario(rng, sid):
+    """2-3 functools.partial objects of ONE function with different frozen arguments, one process, interleaved
+    histories.  A partial has no __name__: func id 'functools/unknown', source text repr(partial), keyed by the
+    raw call form; it must never enter _FUNCTION_HASHES."""
+    params = [["a", "pk", None], ["b", "pk", None], ["c", "pk", {"i": 12}], ["d", "ko", {"i": 13}]]
+    nver = rng.choice([2, 2, 3])
+    versions = {}
+    for k in range(1, nver + 1):
+        fkw = [["d", {"i": 20 + k}]] if rng.random() < 0.4 else []
+        versions[str(k)] = {"tag": "v0", "path": "verifmod.py", "pad": 0, "kind": "partial", "text": k,
+                            "frozen": {"pos": [{"i": 100 + k}], "kw": fkw}}
+    sc = {"id": sid, "type": "partial", "params": params, "ignore": [], "compress": rng.choice([False, 3]),
+          "versions": versions, "mode": "own"}
+    events = []
+    for k in range(1, nver + 1):
+        events += [["define", k], ["wrap", k]]
+    nref = 0
+    for _ in range(rng.randint(3, 10)):
+        k = rng.randint(1, nver)
+        x = {"i": rng.choice([0, 0, 1])}
+        form = rng.random()
+        cs = {"pos": [x], "kw": []} if form < 0.6 else (
+            {"pos": [x], "kw": [["c", {"i": 5}]]} if form < 0.8 else {"pos": [x, {"i": 5}], "kw": []})
+        if rng.random() < 0.4:
+            events.append(["check", k, cs, True])
+        if rng.random() < 0.25:
+            events += [["shelve", k, cs, True], ["get", nref]]
+            nref += 1
+        else:
+            events.append(["call", k, cs, True])
+        if rng.random() < 0.05:
+            events.append(["clearmem"])
+    sc["events"] = events
+    return sc
+
+
+def _call(k, pos, kw=(), kind="call"):
+    return [kind, k, {"pos": [I(v) for v in pos], "kw": [[n, I(v)] for n, v in kw]}, True]
+
+
+def fixed_scenarios(prop):
+    """small hand-written histories that must PASS on the unchanged tree (they pin callable kinds that random
+    generation reaches only with some probability)"""
+    out = []
+    if prop in ("C02", "C06"):
+        # bound method with *args: obj.evaluate(2), (2,3), (2,5), (2,7,3), (2,1,3) are five different bindings
+        ev = [["define", 0], ["wrap", 0]]
+        for pos in ([2], [2, 3], [2, 5], [2, 1, 3], [2, 7, 3], [2, 7], [2, 7, 4], [2], [2, 0], [2, 7, 3], [2, 1]):
+            ev += [_call(0, pos, kind="check"), _call(0, pos)]
+        ev += [_call(0, [2, 7, 3], kind="shelve"), ["get", 0]]
+        out.append({"id": "fixed-method-varargs", "type": "sig",
+                    "params": [["x", "pk", None], ["y", "pk", I(0)], ["rest", "va", None]], "ignore": [],
+                    "compress": False,
+                    "versions": {"0": {"tag": "v0", "path": "verifmod.py", "pad": 0, "kind": "method"}},
+                    "events": ev})
+        # two partials of one function: p1(x); p2(x); p1(x) (+ shelved)
+        V = {str(k): {"tag": "v0", "path": "verifmod.py", "pad": 0, "kind": "partial", "text": k,
+                      "frozen": {"pos": [I(100 + k)], "kw": []}} for k in (1, 2)}
+        ev = [["define", 1], ["wrap", 1], ["define", 2], ["wrap", 2], _call(1, [0]), _call(2, [0]), _call(1, [0]),
+              _call(2, [0], kind="shelve"), ["get", 0], _call(1, [0], kind="shelve"), ["get", 1], _call(2, [0])]
+        out.append({"id": "fixed-partials", "type": "partial",
+                    "params": [["a", "pk", None], ["b", "pk", None], ["c", "pk", I(12)], ["d", "ko", I(13)]],
+                    "ignore": [], "compress": False, "versions": V, "mode": "own", "events": ev})
+    if prop == "C12":
+        # two different lambdas in one process: l1(a); l1(a); l2(a); l1(a)  (own files and one file)
+        for same in (False, True):
+            V = {str(k): {"tag": "v%d" % k, "path": "verifmod.py" if same else "mod_v%d.py" % k, "pad": 0,
+                          "kind": "lambda", "text": k} for k in (1, 2)}
+            ev = ([["define", 1], ["wrap", 1], _c(1), _c(1), ["define", 2], ["wrap", 2], _c(2), _c(2)] if same else
+                  [["define", 1], ["wrap", 1], ["define", 2], ["wrap", 2], _c(1), _c(1), _c(2), _c(1), _c(2), _c(2),
+                   _c(1)])
+            out.append({"id": "fixed-lambdas-%s" % ("one-file" if same else "own-files"), "type": "c12",
+                        "params": [["x", "pk", None]], "ignore": [], "compress": False, "versions": V,
+                        "mode": "same" if same else "own", "events": ev})
+    return out
+
+
 def gen_c12_scenario(rng, sid):
     nver = rng.choice([2, 2, 3])
     mode = rng.choice(["own", "own", "same", "same", "mixed"])
-    kind = rng.choice(["def", "def", "def", "nested", "lambda", "main"])
+    kind = rng.choice(["def", "def", "def", "nested", "lambda", "lambda", "main"])
     if kind == "main":
         mode = "same"      # a __main__ function is identified by its file: other files are other functions
     ntext = rng.choice([nver, nver, max(1, nver - 1)])   # versions may share their source text
@@ -374,9 +472,21 @@ def run_scenarios(scs, workers=None):
 
 
 # ------------------------------------------------------------------------------ oracle
-def monitor(sc):
+def vpath(k, v):
+    """the file a version's source text is read from (a partial has none: its text is its repr)"""
+    return v["path"] if v.get("kind") != "partial" else "partial-%s" % k
+
+
+def unnamed(v):
+    """callables that never enter _FUNCTION_HASHES (no __name__, or '<lambda>')"""
+    return v.get("kind") in ("lambda", "partial")
+
+
+def monitor(sc, classify=False):
     """Python twin of [admissible] (Model/MemoryCore.v), cross-checked against Coq on every scenario.
-    Returns (admissible?, index of the first refused event, clause 'stale'|'other-version')."""
+    Returns (admissible?, index of the first refused event, clause 'stale'|'other-version').
+    classify=True: the variant used to recognise known findings -- the 'other-version' clause (F10) can only
+    bite an object that is in _FUNCTION_HASHES, which lambdas and partials never are."""
     V = sc["versions"]
     live, wraps, stale, called, cur = [], [], [], [], None
     for i, ev in enumerate(sc["events"]):
@@ -384,7 +494,7 @@ def monitor(sc):
         if t == "define":
             j = ev[1]
             others = [k for k in live if k != j]
-            new_stale = [k for k in others if V[str(k)]["path"] == V[str(j)]["path"]
+            new_stale = [k for k in others if vpath(k, V[str(k)]) == vpath(j, V[str(j)])
                          and V[str(k)].get("text", 0) != V[str(j)].get("text", 0)]
             stale = new_stale + [k for k in stale if k != j]
             live = [j] + others
@@ -400,7 +510,7 @@ def monitor(sc):
             if k in wraps:
                 if k in stale:
                     return False, i, "stale"
-                if k in called and cur != V[str(k)].get("text", 0):
+                if k in called and cur != V[str(k)].get("text", 0) and not (classify and unnamed(V[str(k)])):
                     return False, i, "other-version"
                 called = [k] + called
                 cur = V[str(k)].get("text", 0)
@@ -421,7 +531,8 @@ def judge(sc, res):
     shapes = shape_keys(sc["params"])
     V = sc["versions"]
     sc["_raises"] = {i: True for i, r in enumerate(evs) if r.get("args_id", 1) is None}
-    adm, adm_at, adm_clause = monitor(sc)
+    adm, adm_at, adm_clause = monitor(sc, classify=True)
+    multi = sc["type"] in ("c12", "partial")
 
     def fa_key(indices):
         """a deviation is a known finding only if the real filter_args output itself deviates from the binding
@@ -434,10 +545,11 @@ def judge(sc, res):
         return None
 
     def version_key(i):
-        if adm or adm_at > i:
+        if adm or adm_at > i or sc["type"] == "partial":
             return None
         return K_F10 if adm_clause == "other-version" else K_SAMEFILE
 
+    seen_keys = {}      # event -> (restricted binding, args_id) of the calls so far
     completed = {}      # (text, restricted binding) -> index of the completed call that stored it
     by_args_id = {}     # args_id -> set of (text, bind_r)
     ref_info = {}       # ref index -> (event index of the shelve, text, bind_r, expect)
@@ -464,7 +576,27 @@ def judge(sc, res):
                 continue
             if t == "check":
                 pending_check = (i, ev[1], json.dumps(ev[2], sort_keys=True), vld, r["b"])
+                for other in [c for c in completed if c[0] != text]:
+                    del completed[other]      # the code check of another text wipes the store
                 continue
+            # the interface hypotheses, validated on every generated call of a plain function / bound method:
+            # the real filter_args output is the binding; one args_id <=> one binding outside the ignore list
+            if sc["type"] == "sig":
+                if r.get("fa_ok") is False:
+                    devs.append({"prop": "C02", "kind": "canonicalisation-differs", "event": i, "key": fa_key([i]),
+                                 "what": "filter_args does not return the binding of the call (key_sound / "
+                                         "key_complete are validated call by call)"})
+                for j, (bj, aj) in seen_keys.items():
+                    if aj == r.get("args_id") and bj != r["bind_r"]:
+                        devs.append({"prop": "C02", "kind": "key-collision", "event": i, "key": fa_key([i, j]),
+                                     "what": "same args_id as the call at event %d although the bindings differ "
+                                             "outside the ignore list" % j})
+                        break
+                    if aj != r.get("args_id") and bj == r["bind_r"]:
+                        devs.append({"prop": "C06", "kind": "key-split", "event": i, "key": fa_key([i, j]),
+                                     "what": "args_id differs from the equivalent call at event %d" % j})
+                        break
+                seen_keys[i] = (r["bind_r"], r.get("args_id"))
             executed = r["n"] > 0
             # C06_check: the preceding identical check predicted this call
             if pending_check and pending_check[1:4] == (k, json.dumps(ev[2], sort_keys=True), vld):
@@ -476,7 +608,11 @@ def judge(sc, res):
             # values
             if t == "call":
                 if r["v"] != r["expect"]:
-                    if sc["type"] == "c12":
+                    if sc["type"] == "partial":
+                        devs.append({"prop": "C02", "kind": "wrong-value", "event": i, "key": None,
+                                     "what": "cached partial %s returned %s, the plain partial returns %s"
+                                             % (k, r["v"], r["expect"])})
+                    elif sc["type"] == "c12":
                         devs.append({"prop": "C12", "kind": "wrong-version", "event": i, "key": version_key(i),
                                      "what": "call of version %s returned %s, its own code computes %s"
                                              % (k, r["v"], r["expect"])})
@@ -492,7 +628,7 @@ def judge(sc, res):
             # recomputation of an equivalent completed call
             if vld and ck in completed and executed:
                 j = completed[ck]
-                key = fa_key([i, j]) if sc["type"] != "c12" else version_key(i)
+                key = fa_key([i, j]) if not multi else version_key(i)
                 devs.append({"prop": "C06" if sc["type"] != "c12" else "C12",
                              "kind": "recomputed" if sc["type"] != "c12" else "unchanged-recomputed",
                              "event": i, "key": key,
@@ -504,12 +640,14 @@ def judge(sc, res):
             completed[ck] = i
             by_args_id.setdefault(r.get("args_id"), set()).add(ck)
         elif t == "get":
-            if sc["type"] == "c12" and r["o"] == "val" and ev[1] in ref_info and ref_info[ev[1]][0] == i - 1 \
+            if multi and r["o"] == "val" and ev[1] in ref_info and ref_info[ev[1]][0] == i - 1 \
                     and r["v"] != ref_info[ev[1]][3]:
-                devs.append({"prop": "C12", "kind": "wrong-version", "event": i, "key": version_key(i),
+                devs.append({"prop": "C12" if sc["type"] == "c12" else "C02",
+                             "kind": "wrong-version" if sc["type"] == "c12" else "wrong-value-get",
+                             "event": i, "key": version_key(i),
                              "what": ".get() right after call_and_shelve of version %s returned %s, its own code "
                                      "computes %s" % (sc["events"][i - 1][1], r["v"], ref_info[ev[1]][3])})
-            if r["o"] == "val" and ev[1] in ref_info and sc["type"] != "c12":
+            if r["o"] == "val" and ev[1] in ref_info and not multi:
                 j, text, br, expect, aid = ref_info[ev[1]]
                 if r["v"] != expect:
                     devs.append({"prop": "C02", "kind": "wrong-value-get", "event": i,
@@ -559,9 +697,10 @@ def model_terms(sc, res):
     nameds = ["true"] * (kmax + 1)
     path_ids = {}
     for k, v in V.items():
-        codes[int(k)] = v.get("text", 0) + 1 if sc["type"] == "c12" else 1
-        paths[int(k)] = path_ids.setdefault(v["path"], len(path_ids))
-        nameds[int(k)] = "false" if v.get("kind") == "lambda" else "true"
+        codes[int(k)] = v.get("text", 0) + 1 if sc["type"] in ("c12", "partial") else 1
+        # a partial has no source file: its text is repr(partial) -- modelled as a file of its own
+        paths[int(k)] = path_ids.setdefault(vpath(k, v), len(path_ids))
+        nameds[int(k)] = "false" if unnamed(v) else "true"
     keyc, bindc, rbindc = {}, {}, {}
     hist = []
     ref_digest = []
@@ -579,8 +718,10 @@ def model_terms(sc, res):
             if r.get("bind") is None:
                 b = "None"
             else:
+                # second component: identity of the value the call computes (for a function that returns its
+                # bound arguments minus the ignored ones this IS the binding class outside the ignore list)
                 b = "(Some (%d, %d))" % (bindc.setdefault(r["bind"], len(bindc)),
-                                         rbindc.setdefault(r["bind_r"], len(rbindc)))
+                                         rbindc.setdefault(r["expect"], len(rbindc)))
             hist.append("%s %d (%s, %s) %s" % ({"call": "Call", "shelve": "Shelve", "check": "Check"}[t], ev[1],
                                                key, b, "true" if ev[3] else "false"))
         elif t == "get":
@@ -612,8 +753,8 @@ def impl_view(sc, res, tables):
     val = {}
     for ev, r in zip(sc["events"], res["events"]):
         if ev[0] in ("call", "shelve", "check") and r.get("bind") is not None:
-            src = V[str(ev[1])].get("text", 0) + 1 if sc["type"] == "c12" else 1
-            val[r["expect"]] = (src, rbindc[r["bind_r"]])
+            src = V[str(ev[1])].get("text", 0) + 1 if sc["type"] in ("c12", "partial") else 1
+            val[r["expect"]] = (src, rbindc[r["expect"]])
     for ev, r in zip(sc["events"], res["events"]):
         t = ev[0]
         if r.get("o") == "skip":
@@ -755,11 +896,12 @@ def gen_for(ctx, prop, n=None):
     quick = ctx.tier == "quick"
     if prop == "C12":
         n = n or (260 if quick else 2500)
-        return [W_F10, W_SAME] + [gen_c12_scenario(rng, i) for i in range(n)]
+        return [W_F10, W_SAME] + fixed_scenarios(prop) + [gen_c12_scenario(rng, i) for i in range(n)]
     sigs3 = enum_signatures(3)
     sigs = enum_signatures(4 if quick else 5)
     n = n or (230 if quick else 3000)
-    scs = [w for w, p, _, _ in WITNESSES if w["type"] == "sig"]
+    scs = [w for w, p, _, _ in WITNESSES if w["type"] == "sig"] + fixed_scenarios(prop)
+    scs += [gen_partial_scenario(rng, "p-%d" % i) for i in range(40 if quick else 400)]
     # every signature of <= 3 parameters at least once, then a random sample of the larger ones
     scs += [gen_sig_scenario(rng, s, "s3-%d" % i) for i, s in enumerate(sigs3)]
     plain = [s for s in sigs if not shape_keys(s)]
